@@ -61,6 +61,8 @@ RULE = ("seeded generator over classes {reorder (G = F permuted), near (G = F + 
         "Fortran-ordered arrays, a strided view of a larger buffer, read-only arrays or (integer coordinates) an "
         "int64 array, half of them with the array objects shared by all calls of the case (quick 4, thorough 60)")
 TRUSTED_BASE = [
+    "harness/src2coq.py (heat_regen): its reading of heat.py (2-vectors as pairs, x ** 2 as x * x, the loop nest pinned by shape) "
+    "for the 3 regenerated obligations regen_kterm, regen_knorm, regen_heat (proved by Corr/RegenTac.v)",
     "Coq 8.16.1 kernel (vm_compute inside the Interval tactic's reflexive checker; no native_compute)",
     "stdlib axioms of the classical reals: ClassicalDedekindReals.sig_forall_dec, sig_not_dec, "
     "FunctionalExtensionality.functional_extensionality_dep, Classical_Prop.classic",
@@ -78,7 +80,14 @@ ASSUMPTIONS = [
     "implementation it is monitored on every generated case against an independently computed Euclidean W1 and "
     "against persim.wasserstein",
 ]
-COQ_DEPS = ["Corr/HeatCorr.vo"]
+COQ_DEPS = ["Corr/HeatCorr.vo", "Corr/RegenTac.vo"]
+
+
+def extra_obligations(tier):
+    """Second tie (DESIGN 12.7): the summand, loop nest and normalisation of evalHeatKernel and heat()'s clamped combination
+    of the three kernel values are re-translated from the current heat.py and proved equal to Model/HeatM.v."""
+    from .. import src2coq
+    return src2coq.check_regen(PID, "heat", src2coq.heat_regen, core.REPO)
 SIGMAS = [0.01, 0.4, 5.0]
 
 
